@@ -9,6 +9,7 @@ every entry of `T^K`, `K = (n-1)^2+1`, exceeds `atol = 1e-8`), `isFuzzyErgodic` 
 boolean graph `b`" (for `b = support m`: an edge `i → j` iff `m_ij ≠ 0`).
 -/
 import MsmVerif.Lemmas.Linalg
+import MsmVerif.Lemmas.Wielandt
 
 namespace MsmVerif.C14
 open MsmVerif MsmVerif.Msm MsmVerif.Linalg
@@ -114,5 +115,54 @@ theorem mask_sound (m : Mat) (hnn : ∀ r ∈ m, ∀ x ∈ r, 0 ≤ x) (ht : isT
 
 example : ergodicMask [[1/2, 1/2, 0], [1/2, 1/2, 0], [0, 0, 1]] = some [true, true, false] ∧
     maskRel [[1/2, 1/2, 0], [1/2, 1/2, 0], [0, 0, 1]] 0 1 = true := by decide +kernel
+
+/-! ### 7. completeness of the exponent `K` (Wielandt's bound), enumerated for `n ≤ 3` -/
+
+/-- Wielandt's bound for boolean patterns on `n ≤ 3` vertices.  What is enumerated (in `Lemmas/Wielandt.lean`, by
+`decide +kernel` over all 2 + 16 + 512 patterns with `n = 1, 2, 3`): the boolean powers satisfy `p⁶ = p¹²`, and each of
+`p¹ … p¹¹` that is all-true forces `p^K` all-true.  Consequence, for every `k ≥ 1`: walks of length exactly `k` between
+all ordered pairs imply walks of length exactly `K = (n-1)² + 1` between all ordered pairs. -/
+theorem complete_pattern_n_le_3 (n : Nat) (hn : n ≤ 3) (p : List (List Bool))
+    (h : p.length = n ∧ ∀ r ∈ p, r.length = n) (k : Nat) (hk : 1 ≤ k)
+    (hw : ∀ i j, i < n → j < n → Walk p k i j) :
+    ∀ i j, i < n → j < n → Walk p (wielandtExp n) i j :=
+  wielandt_n_le_3 hn h.1 h.2 hk hw
+
+/-- Completeness of the power test for `n ≤ 3`: if some power `k ≥ 1` of a non-negative well-formed `n × n` matrix is
+entrywise positive (the matrix is primitive), then already the `K`-th power, `K = (n-1)² + 1`, is entrywise positive —
+the exponent used by `is_ergodic` is large enough.  (For `n ≥ 4` this is Wielandt's theorem and is not proved here.) -/
+theorem complete_n_le_3 (n : Nat) (hn : n ≤ 3) (m : Mat) (h : m.length = n ∧ ∀ r ∈ m, r.length = n)
+    (hnn : ∀ r ∈ m, ∀ x ∈ r, 0 ≤ x) (k : Nat) (hk : 1 ≤ k)
+    (hpos : ∀ i j, i < n → j < n → 0 < entry (pow m k) i j) :
+    ∀ i j, i < n → j < n → 0 < entry (pow m (wielandtExp n)) i j := by
+  have hs : (support m).length = n ∧ ∀ r ∈ support m, r.length = n := by
+    refine ⟨by rw [support_length, h.1], ?_⟩
+    intro r hr
+    simp only [support, List.mem_map] at hr
+    obtain ⟨r', hr', rfl⟩ := hr
+    rw [List.length_map, h.2 r' hr']
+  have hw := wielandt_n_le_3 hn hs.1 hs.2 hk
+    (fun i j hi hj => (Linalg.pow_pos_iff_walk (n := n) h hnn k hi hj).mp (hpos i j hi hj))
+  exact fun i j hi hj => (Linalg.pow_pos_iff_walk (n := n) h hnn _ hi hj).mpr (hw i j hi hj)
+
+example : (∀ r ∈ ([[0, 1, 0], [0, 0, 1], [1/2, 1/2, 0]] : Mat), ∀ x ∈ r, 0 ≤ x) ∧
+    (∀ i, i < 3 → ∀ j, j < 3 → 0 < entry (pow [[0, 1, 0], [0, 0, 1], [1/2, 1/2, 0]] 7) i j) ∧
+    ¬ (∀ i, i < 3 → ∀ j, j < 3 → 0 < entry (pow [[0, 1, 0], [0, 0, 1], [1/2, 1/2, 0]] 4) i j) := by decide +kernel
+
+/-! ### 8. adding a trap state or a never-visited state keeps a matrix fuzzy-ergodic -/
+
+/-- Let `T` be a non-negative matrix accepted by `is_ergodic`.  The block matrix `T ⊕ (1)` (`addState T 1`: one more
+state, isolated from the others and absorbing) and the block matrix `T ⊕ (0)` (`addState T 0`: one more state that is
+never entered or left — zero row and column) are accepted by `is_fuzzy_ergodic`. -/
+theorem fuzzy_add_trap (T : Mat) (hnn : ∀ r ∈ T, ∀ x ∈ r, 0 ≤ x) (h : isErgodic T = true) :
+    isFuzzyErgodic (addState T 1) = true ∧ isFuzzyErgodic (addState T 0) = true :=
+  ⟨isFuzzyErgodic_addState hnn h (Or.inr rfl), isFuzzyErgodic_addState hnn h (Or.inl rfl)⟩
+
+/-- The enlarged matrices are not accepted by `is_ergodic` itself (on the running example), so the statement is about
+a genuinely larger class. -/
+example : addState [[1/2, 1/2], [1/3, 2/3]] 1 = [[1/2, 1/2, 0], [1/3, 2/3, 0], [0, 0, 1]] ∧
+    isErgodic [[1/2, 1/2], [1/3, 2/3]] = true ∧
+    isErgodic (addState [[1/2, 1/2], [1/3, 2/3]] 1) = false ∧
+    isFuzzyErgodic (addState [[1/2, 1/2], [1/3, 2/3]] 0) = true := by decide +kernel
 
 end MsmVerif.C14
